@@ -7,6 +7,7 @@ import (
 	"runtime"
 	"runtime/debug"
 	"strings"
+	"sync"
 	"testing/synctest"
 	"time"
 
@@ -134,6 +135,12 @@ type uciWorld struct {
 	parked    bool
 	finished  bool
 
+	// events raised by the driver's own goroutines (through the search seam)
+	// are buffered and merged into the history by the scheduler at the next
+	// quiescent point: only the scheduler ever appends to the history.
+	asyncMu sync.Mutex
+	async   []asyncEvent
+
 	cur      *GoCall // search in progress (between GOCALL and GORET)
 	curAgent *agent
 	stubIdx  int
@@ -141,12 +148,49 @@ type uciWorld struct {
 	drvPanic string
 }
 
-func (w *uciWorld) now() int64 { return time.Since(w.t0).Microseconds() }
+// now is the simulated time since the start of the session in microseconds
+// (computed from Unix seconds: time.Since saturates after 292 years, and
+// C14 sessions cover decades per search).
+func (w *uciWorld) now() int64 {
+	t := time.Now()
+	return (t.Unix()-w.t0.Unix())*1_000_000 + int64(t.Nanosecond()-w.t0.Nanosecond())/1000
+}
 
 func (w *uciWorld) ev(kind, data string, n int64) int {
 	seq := len(w.out.Events)
 	w.out.Events = append(w.out.Events, Event{Seq: seq, T: w.now(), Kind: kind, Data: data, N: n})
 	return seq
+}
+
+type asyncEvent struct {
+	t    int64
+	kind string
+	data string
+	n    int64
+	dst  *int
+}
+
+// evAsync records an event from a goroutine other than the scheduler.
+func (w *uciWorld) evAsync(kind, data string, n int64, dst *int) {
+	w.asyncMu.Lock()
+	w.async = append(w.async, asyncEvent{t: w.now(), kind: kind, data: data, n: n, dst: dst})
+	w.asyncMu.Unlock()
+}
+
+// flushAsync merges buffered events; called by the scheduler at quiescence.
+func (w *uciWorld) flushAsync() bool {
+	w.asyncMu.Lock()
+	evs := w.async
+	w.async = nil
+	w.asyncMu.Unlock()
+	for _, e := range evs {
+		seq := len(w.out.Events)
+		w.out.Events = append(w.out.Events, Event{Seq: seq, T: e.t, Kind: e.kind, Data: e.data, N: e.n})
+		if e.dst != nil {
+			*e.dst = seq
+		}
+	}
+	return len(evs) > 0
 }
 
 func (w *uciWorld) stat(k string, d int64) { w.out.Stats[k] += d }
@@ -160,14 +204,14 @@ type wrapSearch struct {
 }
 
 func (ws *wrapSearch) Clear() {
-	ws.w.ev("CLEAR", "", 0)
+	ws.w.evAsync("CLEAR", "", 0, nil)
 	if ws.inner != nil {
 		ws.inner.Clear()
 	}
 }
 
 func (ws *wrapSearch) ResizeTT(n int) {
-	ws.w.ev("RESIZE", "", int64(n))
+	ws.w.evAsync("RESIZE", "", int64(n), nil)
 	if ws.inner != nil {
 		ws.inner.ResizeTT(n)
 	}
@@ -181,7 +225,7 @@ func (ws *wrapSearch) Go(b *board.Board, opts ...search.Option) (score chess.Sco
 	}
 	call.HasStop = call.Opts.Stop != nil
 	call.HasPonderHit = call.Opts.PonderHit != nil
-	call.SeqCall = w.ev("GOCALL", fmt.Sprintf("depth=%d nodes=%d softtime=%d stop=%v ponder=%v root=%s", call.Opts.Depth, call.Opts.Nodes, call.Opts.SoftTime, call.HasStop, call.HasPonderHit, call.RootFEN), 0)
+	w.evAsync("GOCALL", fmt.Sprintf("depth=%d nodes=%d softtime=%d stop=%v ponder=%v root=%s", call.Opts.Depth, call.Opts.Nodes, call.Opts.SoftTime, call.HasStop, call.HasPonderHit, call.RootFEN), 0, &call.SeqCall)
 	call.TCall = w.now()
 	w.out.Calls = append(w.out.Calls, call)
 	w.cur = call
@@ -201,7 +245,7 @@ func (ws *wrapSearch) Go(b *board.Board, opts ...search.Option) (score chess.Sco
 		call.Score, call.Move, call.Ponder = int(score), mv.String(), pm.String()
 		call.Returned = true
 		call.TRet = w.now()
-		call.SeqRet = w.ev("GORET", fmt.Sprintf("score=%d move=%s ponder=%s polls=%d aborted=%v panic=%q", call.Score, call.Move, call.Ponder, call.Polls, call.Aborted, call.Panic), 0)
+		w.evAsync("GORET", fmt.Sprintf("score=%d move=%s ponder=%s polls=%d aborted=%v panic=%q", call.Score, call.Move, call.Ponder, call.Polls, call.Aborted, call.Panic), 0, &call.SeqRet)
 		w.cur = nil
 	}()
 
@@ -215,7 +259,7 @@ func (ws *wrapSearch) Go(b *board.Board, opts ...search.Option) (score chess.Sco
 		for _, l := range sg.Lines {
 			if call.Opts.Output != nil {
 				fmt.Fprintf(call.Opts.Output, "%s\n", l)
-				w.ev("STUBLINE", l, 0)
+				w.evAsync("STUBLINE", l, 0, nil)
 			}
 		}
 		var self <-chan time.Time
@@ -229,9 +273,9 @@ func (ws *wrapSearch) Go(b *board.Board, opts ...search.Option) (score chess.Sco
 			case <-call.Opts.Stop:
 				call.TStop = w.now()
 				call.Aborted = true
-				w.ev("STUBSTOP", "", 0)
+				w.evAsync("STUBSTOP", "", 0, nil)
 			case <-self:
-				w.ev("STUBSELF", "", 0)
+				w.evAsync("STUBSELF", "", 0, nil)
 			}
 		}
 		m, _ := parseStubMove(sg.Move)
@@ -274,12 +318,14 @@ func parseStubMove(s string) (move.Move, error) {
 func (w *uciWorld) settle() {
 	for {
 		synctest.Wait()
-		progressed := false
+		progressed := w.flushAsync()
 		if len(w.pipe) > 0 {
+			chunk := w.pipe[0]
 			select {
-			case w.rd.ch <- w.pipe[0]:
-				w.ev("READ", string(w.pipe[0]), 0)
+			case w.rd.ch <- chunk:
 				w.pipe = w.pipe[1:]
+				synctest.Wait()
+				w.ev("READ", string(chunk), 0)
 				progressed = true
 			default:
 			}
@@ -452,8 +498,13 @@ func (w *uciWorld) drain(toEnd bool) {
 			// nothing is runnable now: let simulated time pass so that any armed
 			// timer fires; if even that changes nothing the system is stuck
 			before := len(w.out.Events)
-			time.Sleep(200 * 365 * 24 * time.Hour)
+			time.Sleep(time.Hour)
 			w.settle()
+			if len(w.out.Events) == before && !w.hasPend && !w.parked && !w.finished {
+				// longer than any clock the properties speak about (10^12 ms)
+				time.Sleep(33 * 365 * 24 * time.Hour)
+				w.settle()
+			}
 			if len(w.out.Events) == before && !w.hasPend && !w.parked && !w.finished {
 				w.ev("STUCK", "", 0)
 				return
